@@ -49,9 +49,8 @@ class RuleMd047(RulePlugin):
         Event that the file being currently scanned is now completed.
         """
         if context.in_fix_mode:
-            if (
-                context.last_line_fixed is not None
-                and not context.last_line_fixed.endswith("\n")
+            if context.last_line_fixed and not context.last_line_fixed.endswith(
+                "\n"
             ):
                 context.set_current_fix_line("\n")
         elif self.__last_line:
